@@ -39,6 +39,7 @@ var crashPoints = []struct {
 	{"broker-plugin-accept", "all"},
 	{"broker-plugin-dial", "grpc-nomux"},
 	{"during-stdio", "all"},
+	{"extra-stdout", "all"},
 }
 
 var c03Seq int64
@@ -174,6 +175,14 @@ func runCrashCase(c *crashCase) (impl, pred string) {
 		case "broker-plugin-accept", "broker-plugin-dial":
 			r, el = timed(15*time.Second, func() error { return kit.Callback() })
 			note("callback", r, el, 9*time.Second)
+		case "extra-stdout":
+			// the plugin prints further lines on its real stdout, then dies
+			kit.Cmd("rawout", 3)
+			time.Sleep(50 * time.Millisecond)
+			kit.Cmd("kill-later", 30)
+			if cmd.Process != nil {
+				waitDead(cmd.Process.Pid, 3*time.Second)
+			}
 		case "during-stdio":
 			kit.Cmd("kill-later", 5)
 			r, el = timed(12*time.Second, func() error { return kit.Emit(make([]byte, 1<<20), make([]byte, 1<<20)) })
